@@ -42,10 +42,15 @@ void log_attr_str_value(enum xcm_attr_type type, const void *value, size_t len,
     case xcm_attr_type_double:
 	snprintf(buf, capacity, "%f", *((const double *)value));
 	break;
-    case xcm_attr_type_str:
-	snprintf(buf, capacity, "\"%s\"", (const char *)value);
+    case xcm_attr_type_str: {
+	/* 'len' includes the terminating NUL character, but is zero in
+	   case no value was produced, in which case the buffer may hold
+	   anything */
+	int str_len = len > 0 ? strnlen(value, len) : 0;
+	snprintf(buf, capacity, "\"%.*s\"", str_len, (const char *)value);
 	buf[capacity-1] = '\0';
 	break;
+    }
     case xcm_attr_type_bin: {
 	if (len == 0) {
 	    strcpy(buf, "<zero-length binary data>");
